@@ -15,6 +15,9 @@ import (
 
 func c09Quantize(x Operand, e int32, cc CtxCase) (cls string, trivial bool, msg string) {
 	want, inexact, dropped, invalid := ref.QuantizeRef(x.V, int(e), cc.R)
+	if cc.R.P == 0 {
+		invalid = true // no coefficient has "at most 0 digits": Quantize is invalid under Precision 0
+	}
 	var d apd.Decimal
 	c := cc.C
 	res, err, pan := callOp("Quantize", &c, &d, x.D, nil, e)
@@ -301,6 +304,12 @@ func c09Run(e *core.Env) {
 		for _, op := range []string{"Ceil", "Floor"} {
 			cls, triv, msg := c09CeilFloor(op, x, p0)
 			report(op, x, nil, p0, cls, triv, msg)
+		}
+		// Precision 0: no coefficient has "at most 0 digits", Quantize is invalid for every target exponent
+		for _, q := range []int32{-2, 0, 3} {
+			q := q
+			cls, triv, msg := c09Quantize(x, q, p0)
+			report("Quantize", x, &q, p0, cls+"-p0", triv, msg)
 		}
 	}
 	// word-boundary precisions: EDGE coefficients (around 10^17..10^20, 10^37..10^39, 2^63, 2^64, 2^127, 2^128)
